@@ -68,12 +68,12 @@ def interrupt_names(g):
     return out
 
 
-def run_cases(ctx, name, cases, extra=None, shard=160, schedules=None, want_model=None):
+def run_cases(ctx, name, cases, extra=None, shard=160, schedules=None, want_model=None, imports=None):
     """cases: list of (g, run_cfg).  For each: run on the implementation, emit MODEL checks, then
     call extra(i, g, run_cfg, obs, batch, N) -> list of oracle failure strings (Python-level oracle);
     `extra` may also add SPEC checks (codes < 100) to the batch.  Returns (obs_all, coq result)."""
     N = Names()
-    batch = CoqBatch(name, IMPORTS, shard=shard)
+    batch = CoqBatch(name, IMPORTS + list(imports or []), shard=shard)
     obs_all = {}
     for i, (g, run_cfg) in enumerate(cases):
         rank = None
